@@ -48,8 +48,8 @@ type cv struct {
 
 var cvU = &cv{kind: cvUnknown}
 
-func cvI(i int64) *cv { return &cv{kind: cvInt, i: i} }
-func cvB(b bool) *cv  { return &cv{kind: cvBool, b: b} }
+func cvI(i int64) *cv  { return &cv{kind: cvInt, i: i} }
+func cvB(b bool) *cv   { return &cv{kind: cvBool, b: b} }
 func cvS(s string) *cv { return &cv{kind: cvStr, s: s} }
 
 type constEval struct {
